@@ -111,6 +111,8 @@ pub struct World {
     pub stats: RunStats,
     pub violations: Vec<Violation>,
     pub log_events: bool,
+    /// actor threads that have finished their runtime start-up and reached the start gate
+    pub arrived: usize,
 }
 
 pub static WORLD: Mutex<Option<World>> = Mutex::new(None);
@@ -132,6 +134,23 @@ pub struct ReplayReader {
     pub recs: Vec<ReadRec>,
     pub pos: usize,
     pub diverged: Option<String>,
+}
+
+/// (address, size) of this module's thread-local cells on the calling thread.
+pub fn tls_cells() -> Vec<(usize, usize)> {
+    fn r<T>(x: &T) -> (usize, usize) {
+        (x as *const T as usize, std::mem::size_of::<T>())
+    }
+    vec![ME.with(r), OP_READS.with(r), CLOCK_READS.with(r), REPLAY.with(r), REPLAY_CLOCK.with(r)]
+}
+
+/// Address ranges of the statics that parked actor threads may touch (for `statics::exclude`).
+pub fn sync_static_ranges() -> Vec<(usize, usize)> {
+    fn r<T>(x: &T) -> (usize, usize) {
+        let a = x as *const T as usize;
+        (a, a + std::mem::size_of::<T>())
+    }
+    vec![r(&WORLD), r(&CV), r(&CVS)]
 }
 
 pub fn lock() -> MutexGuard<'static, Option<World>> {
@@ -551,6 +570,10 @@ pub fn yield_point(me: usize, kind: &'static str) {
 /// Block until it is `me`'s turn (thread start).
 pub fn wait_turn(me: usize) {
     let mut g = lock();
+    if let Some(w) = g.as_mut() {
+        w.arrived += 1;
+    }
+    CV.notify_all();
     while g.as_ref().map_or(false, |w| w.threaded && w.current != me) {
         g = CVS[me % 16].wait(g).unwrap_or_else(|e| e.into_inner());
     }
@@ -579,4 +602,15 @@ pub fn finish(me: usize) {
         CVS[next % 16].notify_one();
     }
     CV.notify_all();
+    // do not exit (thread teardown touches process-global runtime state) while other actors may be
+    // inside a library call: wait until every actor has finished
+    if g.as_ref().map_or(false, |w| w.current == usize::MAX) {
+        // last one out wakes the others
+        for c in CVS.iter() {
+            c.notify_all();
+        }
+    }
+    while g.as_ref().map_or(false, |w| w.threaded && w.current != usize::MAX) {
+        g = CVS[me % 16].wait(g).unwrap_or_else(|e| e.into_inner());
+    }
 }
